@@ -75,6 +75,7 @@ func needsEscape(t dm.Tree) bool {
 
 func c15Run(c c15Case, o *hx.Obs) {
 	root := c.Module.Root()
+	schemaClasses(o, c.Module)
 	mm, err := loadDM(c.Module)
 	if err != nil {
 		o.Failf("harness|schema-rejected", "generated schema does not load: %v\n%s", err, c.Module.Yang())
